@@ -157,23 +157,50 @@ class Facts:
         return out
 
 
+def inherently_nonneg(a):
+    """lengths, minima of such, and sums of lengths cannot be negative; a bare integer symbol (a constructor
+    parameter used as a count) can, unless a fact says otherwise"""
+    if isinstance(a, tuple) and a and a[0] == "min":
+        return all(_nonneg_form(x) for x in a[1])
+    if isinstance(a, str):
+        return a.startswith("len(") or a.startswith("nfeat(")
+    return False
+
+
 def _nonneg_form(d):
-    return d.const >= 0 and all(c >= 0 for _, c in d.terms)
+    return d.const >= 0 and all(c >= 0 and inherently_nonneg(a) for a, c in d.terms)
+
+
+def _generalise(lin):
+    """V<d>[1][0] -> V<d>[1][*] : facts asserted for every element of a container apply to each index"""
+    import re
+    out = Lin.c(lin.const)
+    for a, c in lin.terms:
+        if isinstance(a, str):
+            a = re.sub(r"\[\d+\]$", "[*]", a)
+        out = out + Lin.atom(a).scale(c)
+    return out
+
+
+def _provable_nonneg(d, fs, depth=3):
+    if _nonneg_form(d):
+        return True
+    if depth == 0:
+        return False
+    for f in fs:
+        # only subtract a fact that removes a negative / non-inherent term
+        # only subtract a fact that cancels (part of) a term that keeps d from being visibly non-negative
+        if any(a2 == a and c2 * c > 0 and (c < 0 or not inherently_nonneg(a)) for a, c in d.terms for a2, c2 in f.terms) \
+                or (d.const < 0 and f.const < 0):
+            if _provable_nonneg(d - f, fs, depth - 1):
+                return True
+    return False
 
 
 def prove_le(a, b, facts):
     d = simplify(b - a, facts, _inner=True)
-    if _nonneg_form(d):
-        return True
     fs = [simplify(f, facts, _inner=True) for f in facts.ge0]
-    for f in fs:
-        if _nonneg_form(d - f):
-            return True
-    for i, f in enumerate(fs):
-        for g in fs[i:]:
-            if _nonneg_form(d - f - g):
-                return True
-    return False
+    return _provable_nonneg(d, fs) or _provable_nonneg(_generalise(d), fs)
 
 
 def simplify(lin, facts, _inner=False, _depth=0):
@@ -216,17 +243,8 @@ def simplify(lin, facts, _inner=False, _depth=0):
 def _le_nomin(a, b, facts):
     """a <= b provable, without recursing into simplify (arguments are already simplified)"""
     d = b - a
-    if _nonneg_form(d):
-        return True
-    for f in facts.ge0:
-        f = facts.apply(f)
-        if _nonneg_form(d - f):
-            return True
-    for i, f in enumerate(facts.ge0):
-        for g in facts.ge0[i:]:
-            if _nonneg_form(d - facts.apply(f) - facts.apply(g)):
-                return True
-    return False
+    fs = [facts.apply(f) for f in facts.ge0]
+    return _provable_nonneg(d, fs) or _provable_nonneg(_generalise(d), fs)
 
 
 # ----------------------------------------------------------------------------
@@ -442,6 +460,7 @@ class Interp:
         self.memo = {}
         self._join_ctx = None  # (line, test text) of the `if` whose branches are being joined
         self.conflicts = {}  # fresh-symbol atom -> description of a path-dependent list length
+        self.requirements = []  # (Lin that must be >= 0, text): counts used by range() / slices / list repetition
 
     # -- helpers -------------------------------------------------------------
     def fresh_sym(self, hint):
@@ -665,6 +684,8 @@ class Interp:
                 kind = base.kind if isinstance(base, SeqV) else "list"
                 if lo is None and hi is None:
                     return SeqV(ln, kind)
+                if hi is not None:
+                    self.need_nonneg(hi, pf.src(e))
                 if lo is None:
                     return SeqV(lmin(ln, hi), kind)
                 if hi is None:
@@ -773,6 +794,13 @@ class Interp:
             return pf.src(node)
         return None
 
+    def need_nonneg(self, lin, text):
+        """range(n), x[:n] and [v] * n treat a negative n as 0 while `a + n` does not: n >= 0 must be established"""
+        if lin is None or lin.is_const() or lin.uncertain():
+            return
+        if not any(r == lin for r, _ in self.requirements):
+            self.requirements.append((lin, text))
+
     def truth(self, v):
         if isinstance(v, ConstV):
             return bool(v.v)
@@ -816,6 +844,7 @@ class Interp:
                     n = self.as_int(y)
                     ln = self.as_len(x)
                     if n is not None and not isinstance(y, SeqV):
+                        self.need_nonneg(n, text)
                         if ln.is_const():
                             return SeqV(n.scale(ln.const), "list")
                         if n.is_const():
@@ -840,8 +869,17 @@ class Interp:
 
     def compare(self, e, env, owner, mod):
         if len(e.ops) != 1:
-            vals = [self.eval(x, env, owner, mod) for x in [e.left] + e.comparators]
-            return Opaque("chained compare")
+            # a < b <= c  ==  (a < b) and (b <= c): every link is a fact
+            terms = [e.left] + list(e.comparators)
+            links = []
+            for op_, l_, r_ in zip(e.ops, terms[:-1], terms[1:]):
+                links.append(self.compare(ast.Compare(l_, [op_], [r_]), env, owner, mod))
+            if any(isinstance(v, ConstV) and v.v is False for v in links):
+                return ConstV(False)
+            if all(isinstance(v, ConstV) and v.v is True for v in links):
+                return ConstV(True)
+            conds = [v for v in links if isinstance(v, tuple) and v and v[0] in ("cmp", "and", "or")]
+            return ("and", conds) if conds else Opaque("chained compare")
         a = self.eval(e.left, env, owner, mod)
         b = self.eval(e.comparators[0], env, owner, mod)
         op = e.ops[0]
@@ -939,6 +977,8 @@ class Interp:
         if name == "range" and not star:
             if len(args) == 1:
                 n = self.as_int(args[0])
+                if n is not None:
+                    self.need_nonneg(n, pf.src(e))
                 return SeqV(n, "range") if n is not None else Opaque("range", pf.src(e))
             if len(args) == 2:
                 a, b = self.as_int(args[0]), self.as_int(args[1])
@@ -1274,6 +1314,8 @@ class Interp:
             stored = stored | {"__yield__"}
         for t in targets:
             body_env[t] = Opaque("loop variable", t)
+        if isinstance(it, ElemV) and isinstance(st.target, ast.Name):
+            body_env[st.target.id] = ElemV(it.key + "[*]")  # any element of that container
         dkey = None
         if isinstance(it, DictView):
             dkey = it.dkey
